@@ -889,6 +889,14 @@ func (x *Exec) evalCall(env *SpecEnv, e ECall) Val {
 			}
 		}
 		panic(specErr("entry(): argument must name a parameter of the function"))
+	case "stablysorted":
+		// stablysorted(s): the last sort applied to s's backing array was sort.Stable
+		v := x.evalVal(env, e.Args[0])
+		if v.T.Sort != "Slice" {
+			panic(specErr("stablysorted(): argument must be a slice"))
+		}
+		cell := stableSortCell(Term{app("s_ref", v.T), "Int"})
+		return Val{T: mkEq(x.loadAddr(env.cur, cell), intLit(1)), Typ: types.Typ[types.Bool]}
 	case "reached":
 		// reached(G): this execution passed the program point of "bind [G @ ...]"
 		// (false when no execution does)
